@@ -793,38 +793,4 @@ Section GraphMLTotal.
   Qed.
 End GraphMLTotal.
 
-(* ====================================================================================== *)
-(* louvain_partitions / louvain_communities (C13).  PARTIAL: what the family proves is that the
-   model never runs out of fuel (level fuel > N, sweep fuel >= N^N, N = number of nodes), that a
-   returned value is a chain of nested partitions, and that louvain_communities returns the last
-   level whenever louvain_partitions returns (never Err NoPartitions).  NOT a theorem: that no
-   Panic site is reached (the unwraps on internal lookups of louvain.rs and the model's shuffle
-   table [perms] - the oracle standing for the seeded shuffle - being well formed); and negative
-   weights / negative resolution are outside the family's invariants. *)
-From GV Require Import Model.Louvain Spec.PartitionDef Proofs.LouvainOk Proofs.LouvainLevelsOk Proofs.LouvainModelOk.
-
-Section LouvainPartial.
-  Context {T A : Type}.
-  Variable teqb tltb : T -> T -> bool.
-  Hypothesis teqb_spec : forall x y, teqb x y = true <-> x = y.
-  Hypothesis tltb_asym : forall x y, tltb x y = true -> tltb y x = false.
-  Hypothesis tltb_total : forall x y, tltb x y = false -> tltb y x = false -> x = y.
-
-  Theorem louvain_partial lf sf (g : gstate T A) weighted res thr perms :
-    WF teqb tltb g -> weights_ok g weighted -> (0 <= res)%Q ->
-    (length (nodes_vec g) < lf)%nat -> (length (nodes_vec g) ^ length (nodes_vec g) <= sf)%nat ->
-    louvain_partitions teqb tltb lf sf g weighted res thr perms <> OutOfFuel /\
-    louvain_communities teqb tltb lf sf g weighted res thr perms <> OutOfFuel /\
-    (forall ls, louvain_partitions teqb tltb lf sf g weighted res thr perms = Ok ls ->
-       levels_ok (map nname (nodes_vec g)) ls /\
-       louvain_communities teqb tltb lf sf g weighted res thr perms = Ok (last ls [])).
-  Proof.
-    intros W Hw Hres Hlf Hsf.
-    destruct (louvain_partitions_never_out_of_fuel teqb tltb teqb_spec tltb_asym tltb_total
-                lf sf g weighted res thr perms W Hw Hres Hlf Hsf) as (H1 & H2).
-    split; [exact H1|]. split; [exact H2|]. intros ls Hls. split.
-    - exact (louvain_partitions_levels_ok teqb tltb teqb_spec tltb_asym tltb_total lf sf g weighted res thr perms ls W Hls).
-    - exact (proj1 (louvain_communities_of_partitions teqb tltb teqb_spec tltb_asym tltb_total
-                      lf sf g weighted res thr perms ls W Hls)).
-  Qed.
-End LouvainPartial.
+(* louvain_partitions / louvain_communities: Proofs/LouvainTotal.v (it uses total_modularity above) *)
